@@ -228,6 +228,8 @@ def run(ctx: RuleContext, p: Program) -> None:
     ctx.try_rule(rule_del_range, p, 'DEL-RANGE')
     from . import orient
     ctx.try_rule(orient.rule_orient, p, 'ORIENT')
+    from . import presence
+    ctx.try_rule(presence.rule_presence_truth, p, 'PRESENCE-TRUTH')
     ctx.not_decided += ['full separator arithmetic for every (index, arity, position)', 'store block boundaries (C07)',
                         'identity of tokens outside the edit window (runtime)']
     ctx.assumptions += ['TokenStore.insert_after/insert_before/remove/splice semantics (C07)']
